@@ -429,6 +429,16 @@ func (c *Ctx) VariableTextUnmodified(ob *core.Obligation) {
 						}
 					}
 				}
+				// or it picks the reader of the type from a table keyed by the type name
+				if lk, ok := in.(*ssa.Lookup); ok {
+					if _, isP := lk.Index.(*ssa.Parameter); isP {
+						if m, ok := lk.X.Type().Underlying().(*types.Map); ok {
+							if _, isFn := m.Elem().Underlying().(*types.Signature); isFn {
+								isReader = true
+							}
+						}
+					}
+				}
 			}
 		}
 		if !isReader {
